@@ -59,6 +59,16 @@ CLAIMED = {
          "Choi lower bound, unitary invariance, channel fidelity symmetric / 1 on equal channels / <= any Choi-state fidelity dual bound; soundness of the four executable checkers (lo <= value <= hi). Per run: qubit/qutrit channel pairs from exact data, certificates from an independent solve repaired exactly, "
          "toqito's cb trace norm, diamond distance, cb spectral norm, channel fidelity inside [lo - tau, hi + tau]; closed forms and invariances on outputs.",
          "Trusted: Lean kernel + standard axioms; Mathlib PosSemidef; Python harness; tau = 2e-5 (CVXOPT) / 1e-3 (channel_fidelity: SCS stops inaccurate). Cited: two-unitary closed form, equality of Choi-state fidelity with its SDP. Known finding: CP shortcut of completely_bounded_trace_norm."),
+ "C06": ("Lean 4 characterisation theorems (TP/unital/HP/CP via the Choi matrix, Choi's theorem on CP, positivity) + verified exact deciders + closed-form constructor theorems; exact verdict tables and constructor grids as correspondence",
+         "Kernel-checked (97 theorems): the Choi matrix determines the map; TP iff Tr_out J = 1; unital iff Tr_in J = 1; HP iff J Hermitian; CP (all amplifications positive) iff J PSD iff a Kraus family exists; CP implies positive; unitary channels; "
+         "exact deciders correct end to end (yes/no with margin); every built-in constructor (depolarizing, dephasing, amplitude/phase damping, bit flip, Pauli channel for every qubit count, reduction, Choi map) acts by its textbook formula and has its textbook properties for all dimensions and parameters in range. "
+         "Tie to /repo: ground-truth maps (Stinespring isometries from exact rational unitaries, mixtures, transposition-type maps, margin perturbations) asked of every predicate in every documented form; constructors on parameter grids incl. end points and just-outside values.",
+         "Trusted: Lean kernel + standard axioms; hand-written deciders/closed forms; Python harness. Cited, not proved: Choi's extremality theorem (only the decision procedure is modelled); exact rank routine has no theorem linking it to Matrix.rank. Known finding: is_extremal on linearly dependent Kraus lists."),
+ "C12": ("Lean 4 theorems on the partial transpose and PPT weak duality + verified certificate checkers; toqito's PPT / symmetric-extension values must lie in or be ordered against the certified intervals; call purity by history comparison",
+         "Kernel-checked: partial transpose entry formula, linear, involutive, trace-preserving, self-adjoint for the trace form; T_A = (T_B)^T so the PPT set does not depend on the party; PPT weak duality; PPT value <= global optimum; product measurements are PPT; local-unitary invariance; "
+         "separable measurements satisfy the level-1 and level-2 symmetric-extension constraints; checker soundness; the Bell ensemble has PPT value exactly 1/2 (both certificates by kernel evaluation). Per run: 2..4 states on 2x2 and 2x3, both forms, either party inside certified intervals; hierarchy level 1 = PPT, "
+         "level 2 <= level 1, >= product-measurement value; caller's list unchanged.",
+         "Trusted: Lean kernel + standard axioms; Python harness; tau 2e-5 (CVXOPT) / 1e-3 (SCS hierarchy). Cited: PPT = separable on 2x2 and 2x3 (used for one ordering check). CVXOPT breaks down (ArithmeticError) on about half of the primal PPT programs: counted, not judged."),
 }
 PENDING_REASON = "check not built yet in this round (work in progress; see DESIGN.md section 7 for the plan)"
 
